@@ -346,6 +346,19 @@ func normCond(v ssa.Value) (string, bool) {
 		break
 	}
 	if b, ok := v.(*ssa.BinOp); ok {
+		// emptiness tests of non-negative quantities have one canonical spelling, "X == 0":
+		//   X > 0, X != 0, X >= 1  ≡ !(X == 0);   X < 1, X <= 0 ≡ X == 0   (also with the operands swapped)
+		if x, op, k, ok := zeroOneCompare(b); ok && nonNegative(x) {
+			t := describe(x) + " == 0"
+			switch {
+			case k == 0 && (op == token.GTR || op == token.NEQ), k == 1 && op == token.GEQ:
+				nonnegTexts[t] = true
+				return t, !neg
+			case k == 0 && (op == token.EQL || op == token.LEQ), k == 1 && op == token.LSS:
+				nonnegTexts[t] = true
+				return t, neg
+			}
+		}
 		switch b.Op {
 		case token.NEQ:
 			return describe(b.X) + " == " + describe(b.Y), !neg
@@ -358,6 +371,76 @@ func normCond(v ssa.Value) (string, bool) {
 		}
 	}
 	return describe(v), neg
+}
+
+// nonnegTexts: canonical "X == 0" texts whose X is a non-negative quantity (see normCond / factSpellings).
+var nonnegTexts = map[string]bool{}
+
+// zeroOneCompare recognises a comparison of a value with the constant 0 or 1 and returns it with the value on the
+// left (operator mirrored when the constant was on the left).
+func zeroOneCompare(b *ssa.BinOp) (x ssa.Value, op token.Token, k int, ok bool) {
+	constOf := func(v ssa.Value) (int, bool) {
+		c, isC := v.(*ssa.Const)
+		if !isC || c.Value == nil || c.Value.Kind() != constant.Int {
+			return 0, false
+		}
+		n, exact := constant.Int64Val(c.Value)
+		if !exact || (n != 0 && n != 1) {
+			return 0, false
+		}
+		return int(n), true
+	}
+	switch b.Op {
+	case token.EQL, token.NEQ, token.LSS, token.LEQ, token.GTR, token.GEQ:
+	default:
+		return nil, 0, 0, false
+	}
+	if n, isK := constOf(b.Y); isK {
+		return b.X, b.Op, n, true
+	}
+	if n, isK := constOf(b.X); isK {
+		mirror := map[token.Token]token.Token{token.EQL: token.EQL, token.NEQ: token.NEQ, token.LSS: token.GTR, token.GTR: token.LSS, token.LEQ: token.GEQ, token.GEQ: token.LEQ}
+		return b.Y, mirror[b.Op], n, true
+	}
+	return nil, 0, 0, false
+}
+
+// nonNegative: unsigned integers, len/cap, and the size methods of containers (Len, len, GroupLen).
+func nonNegative(v ssa.Value) bool {
+	if bt, ok := v.Type().Underlying().(*types.Basic); ok && bt.Info()&types.IsUnsigned != 0 {
+		return true
+	}
+	if c, ok := v.(*ssa.Convert); ok {
+		return nonNegative(c.X)
+	}
+	if call, ok := v.(*ssa.Call); ok {
+		n := cname(&call.Call)
+		if n == "builtin.len" || n == "builtin.cap" || strings.HasSuffix(n, ").Len") || strings.HasSuffix(n, ").len") || strings.HasSuffix(n, ").GroupLen") {
+			return true
+		}
+	}
+	return false
+}
+
+// factSpellings lists the equivalent ways a rule may have written the fact (text, truth): the canonical emptiness
+// test "X == 0" of a non-negative X is also offered as "X > 0" / "X >= 1" (negated) and "X < 1".
+func factSpellings(t string, truth bool) [][2]interface{} {
+	out := [][2]interface{}{{t, truth}}
+	if nonnegTexts[t] && strings.HasSuffix(t, " == 0") {
+		x := strings.TrimSuffix(t, " == 0")
+		out = append(out, [2]interface{}{x + " > 0", !truth}, [2]interface{}{x + " >= 1", !truth}, [2]interface{}{x + " < 1", truth})
+	}
+	return out
+}
+
+// factMatches: does the edge fact (t, tr), in any spelling, satisfy the wanted (match, truth)?
+func factMatches(t string, tr bool, match func(string) bool, truth bool) bool {
+	for _, sp := range factSpellings(t, tr) {
+		if match(sp[0].(string)) && sp[1].(bool) == truth {
+			return true
+		}
+	}
+	return false
 }
 
 // edgeHolds reports, for the edge b -> b.Succs[i] of an If block, the condition text and its truth.
@@ -386,7 +469,7 @@ func edgeEstablishesD(b *ssa.BasicBlock, i int, match func(string) bool, truth b
 	if !ok {
 		return false
 	}
-	if match(t) && tr == truth {
+	if factMatches(t, tr, match, truth) {
 		return true
 	}
 	ifi, isIf := b.Instrs[len(b.Instrs)-1].(*ssa.If)
@@ -394,7 +477,66 @@ func edgeEstablishesD(b *ssa.BasicBlock, i int, match func(string) bool, truth b
 		return false
 	}
 	v, neg := stripNot(ifi.Cond)
+	for _, f := range phiImplied(v, (i == 0) != neg, 0) {
+		if factMatches(f.text, f.truth, match, truth) {
+			return true
+		}
+		if f.val != nil && helperImplies(f.val, f.valTruth, match, truth, depth) {
+			return true
+		}
+	}
 	return helperImplies(v, (i == 0) != neg, match, truth, depth)
+}
+
+// phiImplied: a condition that go/ssa materialised as the φ of a short-circuit expression (it does so for the case
+// expressions of a tagless switch and for conditions stored in a variable) still decides its operands:
+// (A && B && C) == true implies every conjunct, (A || B || C) == false refutes every disjunct.
+type impliedFact struct {
+	text     string
+	truth    bool
+	val      ssa.Value // the operand, when it is a call (helper-aware matching)
+	valTruth bool
+}
+
+func phiImplied(v ssa.Value, p bool, depth int) []impliedFact {
+	ph, ok := v.(*ssa.Phi)
+	if !ok || depth > 3 {
+		return nil
+	}
+	var want bool // value of each operand
+	switch {
+	case ph.Comment == "&&" && p:
+		want = true
+	case ph.Comment == "||" && !p:
+		want = false
+	default:
+		return nil
+	}
+	var out []impliedFact
+	add := func(op ssa.Value, val bool) {
+		inner, neg := stripNot(op)
+		opTruth := val != neg // truth of inner
+		t, n2 := normCond(inner)
+		out = append(out, impliedFact{text: t, truth: opTruth != n2})
+		if _, isCall := inner.(*ssa.Call); isCall {
+			out[len(out)-1].val, out[len(out)-1].valTruth = inner, opTruth
+		}
+		out = append(out, phiImplied(inner, opTruth, depth+1)...)
+	}
+	for ei, e := range ph.Edges {
+		if k, isK := e.(*ssa.Const); isK && k.Value != nil {
+			// the short-circuit edge: the predecessor's own condition decided the result; on the other outcome
+			// (the one we are on) that condition had the value `want`
+			pred := ph.Block().Preds[ei]
+			if ifi, isIf := pred.Instrs[len(pred.Instrs)-1].(*ssa.If); isIf && len(pred.Succs) == 2 && pred.Succs[0] != pred.Succs[1] {
+				// we are on the outcome that did NOT short-circuit: the predecessor left by its other branch
+				add(ifi.Cond, pred.Succs[0] != ph.Block())
+			}
+			continue
+		}
+		add(e, want)
+	}
+	return out
 }
 
 func stripNot(v ssa.Value) (ssa.Value, bool) {
@@ -488,7 +630,7 @@ func retImplies(g *ssa.Function, p bool, match func(string) bool, truth bool, de
 			inner, neg := stripNot(leaf)
 			t, n2 := normCond(inner)
 			holds := (p != neg) != n2 // truth of the text when the returned value equals p
-			if match(t) && holds == truth {
+			if factMatches(t, holds, match, truth) {
 				return
 			}
 			if helperImplies(inner, p != neg, match, truth, depth) {
@@ -516,6 +658,28 @@ type Assume struct {
 	Match func(text string) bool
 	Truth bool
 	Eval  func(text string) (truth, applies bool) // optional: per-condition truth (overrides Match/Truth)
+	Text  string                                  // set by assumeEq: the exact condition text (enables `X == c1` ⇒ ¬`X == c2`)
+}
+
+// splitEqConst splits "L == c" where c is an integer or string literal.
+func splitEqConst(t string) (lhs, c string, ok bool) {
+	i := strings.LastIndex(t, " == ")
+	if i < 0 {
+		return "", "", false
+	}
+	lhs, c = t[:i], t[i+4:]
+	if c == "" {
+		return "", "", false
+	}
+	if c[0] == '"' && c[len(c)-1] == '"' && len(c) >= 2 {
+		return lhs, c, true
+	}
+	for j, r := range c {
+		if !(r >= '0' && r <= '9') && !(j == 0 && r == '-') {
+			return "", "", false
+		}
+	}
+	return lhs, c, true
 }
 
 // assumeTypeIs: every test of a stored record's FixedHeader.Type against a constant is decided as if the type were k.
@@ -534,7 +698,7 @@ func assumeTypeIs(k int) Assume {
 }
 
 func assumeEq(text string, truth bool) Assume {
-	return Assume{Match: func(t string) bool { return t == text }, Truth: truth}
+	return Assume{Match: func(t string) bool { return t == text }, Truth: truth, Text: text}
 }
 func assumeHas(sub string, truth bool) Assume {
 	return Assume{Match: func(t string) bool { return strings.Contains(t, sub) }, Truth: truth}
@@ -546,14 +710,48 @@ func edgeAllowed(b *ssa.BasicBlock, i int, as []Assume) bool {
 		return true
 	}
 	for _, a := range as {
-		if a.Eval != nil {
-			if want, applies := a.Eval(t); applies && want != truth {
+		for _, sp := range factSpellings(t, truth) {
+			st, str := sp[0].(string), sp[1].(bool)
+			if a.Eval != nil {
+				if want, applies := a.Eval(st); applies && want != str {
+					return false
+				}
+				continue
+			}
+			if a.Match(st) && a.Truth != str {
 				return false
 			}
-			continue
 		}
-		if a.Match(t) && a.Truth != truth {
-			return false
+		// operands decided by a materialised short-circuit condition (φ&& true / φ|| false)
+		if a.Eval == nil && a.Match != nil {
+			if ifi, isIf := b.Instrs[len(b.Instrs)-1].(*ssa.If); isIf {
+				v, neg := stripNot(ifi.Cond)
+				for _, f := range phiImplied(v, (i == 0) != neg, 0) {
+					for _, sp := range factSpellings(f.text, f.truth) {
+						if a.Match(sp[0].(string)) && a.Truth != sp[1].(bool) {
+							return false
+						}
+					}
+				}
+			}
+		}
+		// `X == c1` assumed true decides every other test `X == c2` of the same X (the switch form of a chain)
+		if a.Text != "" && a.Truth {
+			if l1, c1, ok1 := splitEqConst(a.Text); ok1 {
+				if l2, c2, ok2 := splitEqConst(t); ok2 && l1 == l2 && c1 != c2 && truth {
+					return false
+				}
+			}
+		}
+		// the condition is a call of a boolean helper (or of a function literal the inliner produced) whose
+		// result, on this edge, implies the opposite of the assumption
+		if a.Eval == nil && a.Match != nil {
+			if ifi, isIf := b.Instrs[len(b.Instrs)-1].(*ssa.If); isIf {
+				v, neg := stripNot(ifi.Cond)
+				if _, isCall := v.(*ssa.Call); isCall && helperImplies(v, (i == 0) != neg, a.Match, !a.Truth, 0) {
+					return false
+				}
+			}
 		}
 	}
 	return true
@@ -942,12 +1140,28 @@ func rootFn(f *ssa.Function) *ssa.Function {
 // under edits elsewhere in the function (unlike an ordinal or a line number).
 func guardKey(ins ssa.Instruction) string {
 	var parts []string
-	eds := edgeDoms(ins)
+	all := edgeDoms(ins)
+	// a guard whose condition is a call of a function the reference tree does not have (a freshly extracted
+	// predicate, or a function literal produced by the inliner) takes no part in keys
+	eds := all[:0:0]
+	for _, ed := range all {
+		if ifi, ok := ed.b.Instrs[len(ed.b.Instrs)-1].(*ssa.If); ok {
+			v, _ := stripNot(ifi.Cond)
+			if call, isCall := v.(*ssa.Call); isCall {
+				if g := call.Call.StaticCallee(); g != nil && inModule(g) && theCtx != nil && theCtx.refFns != nil && !theCtx.refFns[fname(g)] {
+					continue
+				}
+			}
+		}
+		eds = append(eds, ed)
+	}
 	// outermost guard first: a block that dominates another comes earlier
 	sort.SliceStable(eds, func(i, j int) bool { return eds[i].b != eds[j].b && eds[i].b.Dominates(eds[j].b) })
-	if len(eds) > 3 {
-		eds = eds[len(eds)-3:] // the three innermost guards identify the site
+	type kf struct {
+		t     string
+		truth bool
 	}
+	var facts []kf
 	for _, ed := range eds {
 		t, neg, ok := condOf(ed.b)
 		if !ok {
@@ -957,10 +1171,30 @@ func guardKey(ins ssa.Instruction) string {
 		if neg {
 			truth = !truth
 		}
+		// a short-circuit condition that go/ssa materialised as a φ (tagless switch cases, conditions held in a
+		// variable) contributes the operands it decides, exactly as the if-form's separate guards would
+		if ifi, isIf := ed.b.Instrs[len(ed.b.Instrs)-1].(*ssa.If); isIf {
+			v, n0 := stripNot(ifi.Cond)
+			if ph, isPhi := v.(*ssa.Phi); isPhi && (ph.Comment == "&&" || ph.Comment == "||") {
+				for _, f := range phiImplied(v, ed.truth != n0, 0) {
+					if !strings.HasPrefix(f.text, "φ") {
+						facts = append(facts, kf{f.text, f.truth})
+					}
+				}
+				continue
+			}
+		}
+		facts = append(facts, kf{t, truth})
+	}
+	if len(facts) > 3 {
+		facts = facts[len(facts)-3:] // the three innermost guards identify the site
+	}
+	for _, f := range facts {
+		t := f.t
 		if len(t) > 90 {
 			t = t[:90] + "…"
 		}
-		if truth {
+		if f.truth {
 			parts = append(parts, t)
 		} else {
 			parts = append(parts, "!("+t+")")
